@@ -33,6 +33,17 @@ type c08Case struct {
 	Occ  []gen.SelOcc `json:"occ"`
 }
 
+// targetType: the name of the type the selector is applied to (the prelude declares `var v T`)
+func (c *c08Case) targetType() string {
+	if i := strings.Index(c.Src, "\nvar v "); i >= 0 {
+		rest := c.Src[i+7:]
+		if j := strings.IndexByte(rest, '\n'); j >= 0 {
+			return rest[:j]
+		}
+	}
+	return "?"
+}
+
 func occString(occ []gen.SelOcc) string {
 	var parts []string
 	for _, o := range occ {
@@ -84,6 +95,19 @@ func c08Eval(c *c08Case) (sig, msg string, skip bool) {
 		return "", "", false
 	}
 	if tt != nil && tt.first != nil {
+		if c.Mode == "methodexpr" || c.Mode == "ptrmethodexpr" {
+			// which first parameter (the receiver) each side gives the method expression: T, *T, or another type
+			recv := func(t string) string {
+				switch {
+				case strings.HasPrefix(t, "func(main."+c.targetType()+",") || strings.HasPrefix(t, "func(main."+c.targetType()+")"):
+					return "T"
+				case strings.HasPrefix(t, "func(*main."+c.targetType()+",") || strings.HasPrefix(t, "func(*main."+c.targetType()+")"):
+					return "*T"
+				}
+				return "other"
+			}
+			return "selector-type|" + shape + "|" + tt.first.Kind + "|recv:go=" + recv(tt.first.Go) + ",builder=" + recv(tt.first.Gogen), "selector ." + c.Name + ": " + tt.first.String(), false
+		}
 		return "selector-type|" + shape + "|" + tt.first.Kind, "selector ." + c.Name + ": " + tt.first.String(), false
 	}
 	if !pr.Out.OK() {
